@@ -2,7 +2,7 @@
 """archive_seed.py <ID> <suffix> <needs> <detected_by>: copy /tmp/mut/<ID>.out into seeded/<ID>-<suffix>/ with meta.json"""
 import json, os, shutil, subprocess, sys
 pid, suf, needs, det = sys.argv[1:5]
-src = '/tmp/mut/%s.out' % pid
+src = '/tmp/mut/%s.out' % (pid if suf == 'a' else pid + suf)
 dst = '/verif/seeded/%s-%s' % (pid, suf)
 os.makedirs(dst, exist_ok=True)
 for f in ('patch.diff', 'demo.diff', 'notes.md'):
